@@ -128,7 +128,7 @@ func (c CodecProto) ReadNext(b []byte, r io.Reader, limit int) ([]byte, int, err
 	if n < 0 {
 		return b, 0, protowire.ParseError(n)
 	}
-	if size > math.MaxInt || (limit > 0 && size > uint64(limit)) {
+	if size > math.MaxInt || limit < 0 || size > uint64(limit) {
 		return b, 0, &protodelim.SizeTooLargeError{Size: size, MaxSize: uint64(limit)}
 	}
 	b = b[n:] // consume the varint
